@@ -187,6 +187,27 @@ func TestC17(t *testing.T) {
 					return
 				}
 				c17CheckCut(r, "size", caseID, l, bs, cs, ct, res)
+				// the same flow object is asked again after the events of the range changed (an L2 reorg
+				// re-synced the blocks, lighter or heavier metadata): the answer must only depend on
+				// the current events, not on an earlier call
+				if g.Intn(3) == 0 {
+					l2 := l
+					l2.BridgeMd, l2.ClaimMd = nil, nil
+					for range l2.BridgeBlk {
+						l2.BridgeMd = append(l2.BridgeMd, []int{0, 0, 32, g.Intn(2000)}[g.Intn(4)])
+					}
+					for range l2.ClaimBlk {
+						l2.ClaimMd = append(l2.ClaimMd, []int{0, 0, 32, g.Intn(2000)}[g.Intn(4)])
+					}
+					bs2, cs2 := c17Build(l2)
+					q.bridges, q.claims = bs2, cs2
+					res2, err := bf.GetCertificateBuildParamsInternal(context.Background(), ct)
+					if err != nil {
+						r.Violation("C17:size:error", caseID, "second call on the same flow: "+err.Error(), l2)
+						return
+					}
+					c17CheckCut(r, "size-second-call", caseID, l2, bs2, cs2, ct, res2)
+				}
 			})
 		}
 	})
@@ -233,8 +254,21 @@ func TestC17(t *testing.T) {
 				lim := flows.NewMaxL2BlockNumberLimiter(maxBlk, lg, allowResize, requireBridge)
 				res, err := lim.AdaptCertificate(full)
 				if err != nil {
-					// refusing is always allowed; it must not be a silent wrong result
-					r.Eval(fmt.Sprintf("lim/refused/retry=%v", l.Retry))
+					// a refusal is allowed for the documented reasons only: a retry that may not be
+					// resized, nothing at or below the limit, or "one bridge required" with no bridge
+					// in the permitted part; otherwise the events of [from, max] would never be certified
+					bridgesInCut := 0
+					for _, bb := range l.BridgeBlk {
+						if bb <= maxBlk {
+							bridgesInCut++
+						}
+					}
+					legit := (l.Retry && !allowResize) || l.From > maxBlk || (requireBridge && bridgesInCut == 0)
+					if !legit {
+						r.Violation("C17:lastblock:refused-although-a-permitted-cut-exists", caseID, fmt.Sprintf("AdaptCertificate([%d,%d], max %d) refuses (%v) although the cut [%d,%d] is permitted", l.From, l.To, maxBlk, err, l.From, min(l.To, maxBlk)), sc)
+						return
+					}
+					r.Eval(fmt.Sprintf("lim/refused/retry=%v/from-vs-max=%d", l.Retry, cmpU(l.From, maxBlk)))
 					return
 				}
 				wantTo := min(l.To, maxBlk)
@@ -440,4 +474,14 @@ func c17Gap(r *mon.Run, caseID string, a, b, c, d uint64) {
 		}
 		r.Eval("gap/" + rel + "/" + ec)
 	})
+}
+
+func cmpU(a, b uint64) int {
+	switch {
+	case a < b:
+		return -1
+	case a > b:
+		return 1
+	}
+	return 0
 }
